@@ -10,7 +10,7 @@ open Gen
 section ListLemmas
 variable {α β : Type}
 
-theorem split_at {l : List α} {i : Nat} {a : α} (h : l[i]? = some a) :
+theorem list_split_at {l : List α} {i : Nat} {a : α} (h : l[i]? = some a) :
     l = l.take i ++ a :: l.drop (i + 1) := by
   have hi : i < l.length := by
     rcases Nat.lt_or_ge i l.length with h1 | h1
@@ -41,7 +41,7 @@ theorem insertIdx_eq {l : List α} {i : Nat} {a : α} (h : i ≤ l.length) :
 
 theorem sum_map_split {l : List α} {i : Nat} {a : α} (f : α → Nat) (h : l[i]? = some a) :
     (l.map f).sum = ((l.take i).map f).sum + f a + ((l.drop (i + 1)).map f).sum := by
-  conv => lhs; rw [split_at h]
+  conv => lhs; rw [list_split_at h]
   simp [List.sum_append]; omega
 
 theorem sum_map_set {l : List α} {i : Nat} {a b : α} (f : α → Nat) (h : l[i]? = some a) :
@@ -63,7 +63,7 @@ theorem sum_map_insertIdx {l : List α} {i : Nat} {b : α} (f : α → Nat) (h :
 
 theorem flatMap_split {l : List α} {i : Nat} {a : α} (f : α → List β) (h : l[i]? = some a) :
     l.flatMap f = (l.take i).flatMap f ++ (f a ++ (l.drop (i + 1)).flatMap f) := by
-  conv => lhs; rw [split_at h]
+  conv => lhs; rw [list_split_at h]
   simp [List.flatMap_append]
 
 theorem flatMap_set {l : List α} {i : Nat} {a b : α} (f : α → List β) (h : l[i]? = some a) :
